@@ -14,6 +14,7 @@ func init() {
 		Strat(c, "R-STRAT")
 		Stale(c, "R-STALE", []*packages.Package{c.Pkg("fp"), c.Pkg("statet")}, 25, 15)
 		Unit(c, "R-UNIT", 8)
+		TemplateCopies(c, "R-COPIES", monadPackages(c), 100)
 		Rel(c, "R-REL", monadPackages(c), func(p *packages.Package, fd *ast.FuncDecl, fn *types.Func) bool { return true }, nil, 400)
 	})
 }
